@@ -38,8 +38,13 @@ Fixpoint firstN {A} (l : list A) (n : N) : list A :=
   | [] => []
   | x :: t => if n =? 0 then [] else x :: firstN t (N.pred n)
   end.
+(* linear-time reverse (= rev, lemma revT_rev) *)
+Definition revT {A} (l : list A) : list A := rev_append l [].
 Definition sliceN {A} (l : list A) (a n : N) : list A := firstN (skipN l a) n.
-Definition lenN {A} (l : list A) : N := N.of_nat (length l).
+(* length as a binary number, counted directly (= N.of_nat (length l), lemma lenN_eq) *)
+Fixpoint lenN_aux {A} (l : list A) (acc : N) : N :=
+  match l with [] => acc | _ :: t => lenN_aux t (N.succ acc) end.
+Definition lenN {A} (l : list A) : N := lenN_aux l 0.
 Fixpoint nthN {A} (l : list A) (n : N) (d : A) : A :=
   match l with
   | [] => d
@@ -95,7 +100,8 @@ Definition seek_table_bytes (cf : N) (log : list logent) : list N :=
 Record wst := mkW { w_pos : N;      (* fl->seekTablePos (U32) *)
                     w_idx : N;      (* fl->seekTableIndex (U32) *)
                     w_avail : N;    (* output->size - output->pos *)
-                    w_out : list N  (* bytes appended to output by this call *) }.
+                    w_rout : list N (* bytes appended to output by this call, most recent first *) }.
+Definition w_out (s : wst) : list N := revT (w_rout s).
 
 (* continue / return a value *)
 Inductive wstep := WCont (s : wst) | WRet (s : wst) (v : N) | WTrap (site : N).
@@ -108,7 +114,7 @@ Definition stwrite32 (total value offset : N) (s : wst) : wstep :=
     if 4 <? skip + lenWrite then WTrap 1                   (* memcpy would read outside tmp[4] *)
     else
       let s' := mkW (w32 (w_pos s + lenWrite)) (w_idx s) (w_avail s - lenWrite)
-                    (w_out s ++ sliceN (le32 value) skip lenWrite) in
+                    (rev_append (sliceN (le32 value) skip lenWrite) (w_rout s)) in
       if lenWrite <? 4 then WRet s' (sub64 total (w_pos s')) else WCont s'
   else WCont s.
 
@@ -124,7 +130,7 @@ Fixpoint write_entries (cf total : N) (ents : list logent) (s : wst) : wstep :=
       wbind (stwrite32 total c (w32 start) s) (fun s =>
       wbind (stwrite32 total d (w32 (w32 start + 4)) s) (fun s =>
       wbind (if flag_set cf then stwrite32 total k (w32 (w32 start + 8)) s else WCont s) (fun s =>
-      write_entries cf total rest (mkW (w_pos s) (w32 (w_idx s + 1)) (w_avail s) (w_out s)))))
+      write_entries cf total rest (mkW (w_pos s) (w32 (w_idx s + 1)) (w_avail s) (w_rout s)))))
   end.
 
 (* one call of ZSTD_seekable_writeSeekTable with [avail] bytes of room; state = (seekTablePos, seekTableIndex) *)
@@ -139,7 +145,7 @@ Definition write_call (cf : N) (log : list logent) (pos idx avail : N) : wstep :
   if w_avail s <? 1 then WRet s (sub64 total (w_pos s))
   else
     let s := if w_pos s <? sub64 total 4
-             then mkW (w32 (w_pos s + 1)) (w_idx s) (w_avail s - 1) (w_out s ++ [sfd_of cf])
+             then mkW (w32 (w_pos s + 1)) (w_idx s) (w_avail s - 1) (sfd_of cf :: w_rout s)
              else s in
     wbind (stwrite32 total MAGIC (sub32 total 4) s) (fun s =>
     if w_pos s =? total then WRet s 0 else WRet s (errval sk_E_GENERIC)))))).
@@ -269,7 +275,7 @@ Definition load_seek_table (BUFF : N) (file : list N) (buf0 : list N) : res seek
   match ld_loop BUFF file fl alloc (N.to_nat numFrames) s0 with
   | Ok s =>
       if alloc <=? numFrames then Trap 15                 (* entries[numFrames] *)
-      else Ok (mkT (rev (mkE (l_c s) (l_d s) 0 :: l_ents s)) numFrames fl)
+      else Ok (mkT (revT (mkE (l_c s) (l_d s) 0 :: l_ents s)) numFrames fl)
   | Err c => Err c
   | Trap t => Trap t
   end end end end end.
